@@ -502,6 +502,8 @@ func (w *worker) proposeBatch(ctx context.Context, commands []*regattapb.Replica
 	var lastApplied uint64
 	seq.Type = regattapb.Command_SEQUENCE
 	for i, c := range commands {
+		// Every command carries its own leader index, the state machine skips those it has applied already.
+		c.Command.LeaderIndex = &c.LeaderIndex
 		seq.Sequence = append(seq.Sequence, c.Command)
 		seq.LeaderIndex = &c.LeaderIndex
 		if seq.SizeVT() >= desiredProposalSize || i == len(commands)-1 {
